@@ -165,7 +165,7 @@ func refLeaves(t types.Type, seen map[string]bool) []string {
 
 // deepFresh: the value shares no reference with memory that existed before this call.
 func (c *Ctx) deepFresh(v ssa.Value, depth int) (bool, string) {
-	if depth > 6 {
+	if depth > 14 {
 		return false, "too deep"
 	}
 	switch x := v.(type) {
@@ -640,4 +640,189 @@ func ruleHandlersOwnCopy(c *Ctx, rule string) {
 			ob.Bad(strings.Join(uniq(bad), "; ") + " — the state saved by an earlier CHECKPOINT or held by the caller is modified behind its back")
 		}
 	}
+}
+
+// ruleValueCopyDeep implements C02.R5: the Copy of a table of values copies the values too. A table holds nested tables (the
+// per-iteration scopes of a named loop) that are updated in place, so a one-level copy leaves snapshot and live state sharing them.
+func ruleValueCopyDeep(c *Ctx, rule string) {
+	r := c.R
+	n := 0
+	for _, fn := range c.SrcFuncs("engine") {
+		if fn.Name() != "Copy" || fn.Signature.Recv() == nil || len(fn.Params) == 0 {
+			continue
+		}
+		rt, ok := deref(fn.Signature.Recv().Type()).Underlying().(*types.Struct)
+		if !ok {
+			continue
+		}
+		// receivers that hold a map or slice whose elements can themselves hold references
+		holds := false
+		for i := 0; i < rt.NumFields(); i++ {
+			switch u := rt.Field(i).Type().Underlying().(type) {
+			case *types.Map:
+				if types.IsInterface(u.Elem()) || hasRefField(u.Elem()) || isRefType(u.Elem()) {
+					holds = true
+				}
+			case *types.Slice:
+				if types.IsInterface(u.Elem()) || hasRefField(u.Elem()) || isRefType(u.Elem()) {
+					holds = true
+				}
+			}
+		}
+		if !holds {
+			continue
+		}
+		// only tables of values (element type is an interface of this package with a Copy method)
+		n++
+		ob := r.Ob(rule, fnName(fn)+": every element of the copy is itself a copy", c.pos(fn.Pos()))
+		recv := fn.Params[0]
+		var bad []string
+		inserted := 0
+		isElemCopy := func(v ssa.Value) bool {
+			call, ok := v.(*ssa.Call)
+			if !ok {
+				return false
+			}
+			if call.Call.IsInvoke() {
+				return call.Call.Method.Name() == "Copy"
+			}
+			if sc := call.Call.StaticCallee(); sc != nil {
+				if strings.HasPrefix(sc.Name(), "Copy") {
+					return true
+				}
+				f, _ := c.deepFresh(v, 0)
+				return f
+			}
+			return false
+		}
+		derivesFromRecv := func(v ssa.Value) bool {
+			seen := map[ssa.Value]bool{}
+			var w func(v ssa.Value, d int) bool
+			w = func(v ssa.Value, d int) bool {
+				if v == ssa.Value(recv) {
+					return true
+				}
+				// the parameters of a closure defined here receive what the receiver's iteration helper hands them
+				if p, ok := v.(*ssa.Parameter); ok && p.Parent() != fn && p.Parent().Parent() == fn {
+					return true
+				}
+				if d > 8 || seen[v] {
+					return false
+				}
+				seen[v] = true
+				if a, ok := v.(*ssa.Alloc); ok {
+					// a spilled value receiver
+					for _, ref := range *a.Referrers() {
+						if st, ok := ref.(*ssa.Store); ok && st.Addr == ssa.Value(a) && st.Val == ssa.Value(recv) {
+							return true
+						}
+					}
+				}
+				if in, ok := v.(ssa.Instruction); ok {
+					for _, op := range in.Operands(nil) {
+						if *op != nil && w(*op, d+1) {
+							return true
+						}
+					}
+				}
+				return false
+			}
+			return w(v, 0)
+		}
+		// isRecvStorage: the map/table being written is the receiver's own (reached from the receiver by loads and field selection)
+		isRecvStorage := func(v ssa.Value) bool {
+			root := traceAddr(v).Root
+			if root == ssa.Value(recv) {
+				return true
+			}
+			if a, ok := root.(*ssa.Alloc); ok {
+				for _, ref := range *a.Referrers() {
+					if st, ok := ref.(*ssa.Store); ok && st.Addr == ssa.Value(a) && st.Val == ssa.Value(recv) {
+						return true
+					}
+				}
+			}
+			return false
+		}
+		scanWithClosures := func(f *ssa.Function, visit func(ssa.Instruction)) {
+			instrsOf(f, visit)
+			for _, af := range f.AnonFuncs {
+				instrsOf(af, visit)
+			}
+		}
+		scanWithClosures(fn, func(in ssa.Instruction) {
+			switch x := in.(type) {
+			case *ssa.MapUpdate:
+				if isRecvStorage(x.Map) {
+					return // writes into the receiver are not part of building the copy
+				}
+				inserted++
+				if derivesFromRecv(x.Value) && !isElemCopy(x.Value) {
+					bad = append(bad, "map element <- "+exprStr(x.Value)+" ["+c.pos(x.Pos())+"]")
+				}
+			case *ssa.Call:
+				sc := x.Call.StaticCallee()
+				if sc == nil || sc.Signature.Recv() == nil || (sc.Name() != "Add" && sc.Name() != "Push" && sc.Name() != "Set") || len(x.Call.Args) < 2 {
+					return
+				}
+				if isRecvStorage(x.Call.Args[0]) {
+					return
+				}
+				inserted++
+				val := x.Call.Args[len(x.Call.Args)-1]
+				if derivesFromRecv(val) && !isElemCopy(val) {
+					bad = append(bad, sc.Name()+"(..., "+exprStr(val)+") ["+c.pos(x.Pos())+"]")
+				}
+			}
+		})
+		switch {
+		case len(bad) > 0:
+			ob.Bad("the copy takes over elements of the receiver as they are: " + strings.Join(bad, "; ") + " — nested tables are then shared between a checkpoint and the live state, and a binding made on an abandoned path stays visible")
+		case inserted == 0:
+			ob.Und("no element insertion into the copy was found")
+		default:
+			ob.OKnt(fmt.Sprintf("%d insertion(s), each of an element's own Copy()", inserted))
+		}
+	}
+	r.Floor(rule, "Copy methods of value tables", n, 1)
+}
+
+// ruleBoundTextIsConsumedText extends C02.R2: whatever is bound to a name is a slice of the text the attempt has consumed, or the
+// variable table of a finished named loop - never text taken from the pattern.
+func ruleBoundTextIsConsumedText(c *Ctx, rule string) {
+	r := c.R
+	ins := c.stateMethod("INSERTVARIABLE")
+	if ins == nil {
+		r.Ob(rule, "anchor INSERTVARIABLE", "").Und("not found")
+		return
+	}
+	n := 0
+	for _, fn := range c.SrcFuncs("engine") {
+		if fn == ins {
+			continue
+		}
+		k := 0
+		for _, call := range callsTo(fn, ins) {
+			if len(call.Call.Args) < 3 {
+				continue
+			}
+			n++
+			k++
+			ob := r.Ob(rule, fmt.Sprintf("%s: binding #%d binds consumed text", fnName(fn), k), c.pos(call.Pos()))
+			v := call.Call.Args[2]
+			if mi, ok := v.(*ssa.MakeInterface); ok {
+				v = mi.X
+			}
+			s := exprStr(v)
+			switch {
+			case strings.Contains(s, ".currentMatch["):
+				ob.OKnt("the bound value is " + s + ": a slice of the text consumed so far")
+			case strings.HasSuffix(s, ".variables"):
+				ob.OKnt("the bound value is the variable table of the loop that just finished")
+			default:
+				ob.Bad("the bound value is " + s + ", which is not a slice of currentMatch: the variable reports text that was not matched (for instance the pattern's spelling of a caseless literal)")
+			}
+		}
+	}
+	r.Floor(rule, "call sites of INSERTVARIABLE", n, 2)
 }
